@@ -44,9 +44,10 @@ func (a *config) MergeSpoc(d deviceconf.Config) deviceconf.Config {
 					i = appended + 1
 					appended = i
 				} else if ru.append {
-					// Append before last non DROP line.
+					// Append before last non DROP line,
+					// but behind prepended rules.
 					i = len(aChain.rules)
-					for i > 0 {
+					for i > prepend {
 						if aChain.rules[i-1].pairs["-j"] == "DROP" {
 							i--
 						} else {
